@@ -707,3 +707,5 @@ def rules(ctx):
     _c09.parent_copy(ctx, "C08.ownership")
     from . import c01 as _c01
     ctx.shared(_c01.layout, "C08.fock-layout")
+    from . import c16 as _c16
+    ctx.shared(_c16.layout, "C08.state-layout")
